@@ -1695,7 +1695,9 @@ pub fn lookup(seed: u64, focus: Focus, rep: &mut Report) {
                 if seeds_all_taken {
                     rep.count("sys_lookups_with_all_seeds_known");
                 }
-                let missing: Vec<String> = learned.iter().filter(|id| announced.contains(*id)).chain(seeds.iter().filter(|_| seeds_all_taken)).filter(|id| **id != vid && !contacted.contains(*id) && s.w.node_by_id(id).is_some()).map(|id| format!("{}=node{}", hx(&id[..4]), s.w.node_by_id(id).unwrap())).collect();
+                // (back-to-back lookups: an answer seen in this window may belong to a request of the
+                // previous lookup, so only the seeds are held against this one)
+                let missing: Vec<String> = learned.iter().filter(|id| !tight && announced.contains(*id)).chain(seeds.iter().filter(|_| seeds_all_taken)).filter(|id| **id != vid && !contacted.contains(*id) && s.w.node_by_id(id).is_some()).map(|id| format!("{}=node{}", hx(&id[..4]), s.w.node_by_id(id).unwrap())).collect();
                 rep.count("sys_lookups_judged_for_completeness");
                 if !missing.is_empty() {
                     s.flag(rep, Focus::C10, "C10:candidate-not-contacted", format!("the lookup returned {} nodes without being cut off, yet it never contacted {} candidates it had learnt of ({:?})", result.len(), missing.len(), &missing[..missing.len().min(4)]), wit.clone());
@@ -1749,7 +1751,13 @@ pub fn lookup(seed: u64, focus: Focus, rep: &mut Report) {
                         // ... and it is the first packet of that answer to arrive (after other
                         // packets the request may already be complete and the packet is ignored)
                         let earlier = s.w.trace.iter().any(|(t, e)| *t < tp && matches!(e, WEv::Injected { node: Some(k), msg: Some(RefMessage::Nodes { id, .. }), .. } if k == i && id == rid));
-                        if !earlier && tx.iter().any(|t| *t <= tp && tp < *t + request_timeout) {
+                        // ... and the request was not failed meanwhile (a second WHOAREYOU from
+                        // the responder fails it and drops the session), and the node under test
+                        // could read the packet (it did not answer it with a WHOAREYOU)
+                        let t0 = tx.iter().copied().min().unwrap_or(tp);
+                        let challenges_from_responder = s.w.trace.iter().filter(|(t, e)| *t >= t0 && *t <= tp && matches!(e, WEv::Injected { node: Some(k), label, .. } if k == i && label.starts_with("whoareyou"))).count();
+                        let unreadable = s.w.trace.iter().any(|(t, e)| *t >= tp && *t <= tp + Duration::from_millis(2) && matches!(e, WEv::Sent { node: Some(k), kind: "whoareyou", .. } if k == i));
+                        if !earlier && challenges_from_responder <= 1 && !unreadable && tx.iter().any(|t| *t <= tp && tp < *t + request_timeout) {
                             delivered_alive = true;
                         }
                     }
